@@ -429,6 +429,8 @@ class MultiAxis(Axis):
         self._members = None # labels of the member axes at the time the values were computed
         self._size = None  
         self._attrs = dict()
+        self._tol = None
+        self._monotonic = None # (Axis.__getitem__ and is_monotonic, inherited, expect these two attributes)
 
     @property
     def values(self):
@@ -439,6 +441,7 @@ class MultiAxis(Axis):
         if self._values is None or not all(m.shape == c.shape and np.all(m == c) for m, c in zip(members, self._members)):
             self._values = self._get_values()
             self._members = [m.copy() for m in members]
+            self._monotonic = None
         return self._values
 
     def _get_values(self):
